@@ -29,7 +29,9 @@ DIMOF = {"m": "L", "km": "L", "cm": "L", "mile": "L", "s": "T", "hr": "T", "dime
 BASE = np.array([1.5, 20.0, 300.0])
 RTOL = 1e-3
 # value relations: desired = actual * (1 + d) elementwise (far from every tolerance boundary used below)
-RELS = {"equal": 0.0, "inside-rtol": RTOL / 4, "outside-rtol": RTOL * 4, "far": 0.5}
+RELS = {"equal": 0.0, "inside-rtol": RTOL / 4, "outside-rtol": RTOL * 4, "far": 0.5, "asym-up": 0.75, "asym-down": -0.4}
+# asym-*: with rtol = 0.5 the difference lies between rtol*|actual| and rtol*|desired|: the verdict depends on WHICH operand
+# the relative tolerance is measured against (NumPy's rule: the second, "desired")
 
 
 def make(form, unit, si_values):
@@ -105,10 +107,14 @@ def part_close(ctx, shard):
                 commens = dim_a == dim_d
                 # bare numbers are dimensionless numbers: their SI magnitude is the number itself
                 As_b, Ds_b = np.broadcast_arrays(As, Ds)
-                for rt_name in ("float", "dimless-q", "percent-q", "zero"):
-                    rt_val = {"float": RTOL, "dimless-q": unyt_quantity(RTOL, "dimensionless"), "percent-q": unyt_quantity(RTOL * 100, "percent"), "zero": 0.0}[rt_name]
-                    rt_si = 0.0 if rt_name == "zero" else RTOL
-                    for at_name in ("zero", "bare-small", "bare-large", "same-unit-large", "other-unit-large", "other-unit-small", "wrong-dimension"):
+                for rt_name in ("float", "dimless-q", "percent-q", "zero", "half", "half-percent-q"):
+                    rt_val = {"float": RTOL, "dimless-q": unyt_quantity(RTOL, "dimensionless"), "percent-q": unyt_quantity(RTOL * 100, "percent"), "zero": 0.0,
+                              "half": 0.5, "half-percent-q": unyt_quantity(50.0, "percent")}[rt_name]
+                    rt_si = 0.0 if rt_name == "zero" else 0.5 if rt_name.startswith("half") else RTOL
+                    for at_name in ("zero", "bare-small", "bare-large", "same-unit-large", "other-unit-large", "other-unit-small", "wrong-dimension",
+                                    "other-unit-large-0darray", "other-unit-small-0darray", "other-unit-small-1array", "wrong-dimension-0darray"):
+                        if rt_name.startswith("half") and at_name not in ("zero", "bare-small", "other-unit-small", "other-unit-small-0darray"):
+                            continue
                         # sizes are relative to |D|: small = 1e-6 |D|max (irrelevant), large = 2 |D|max (accepts everything)
                         dmax_si = float(np.max(np.abs(Ds)))
                         du = des_unit
@@ -123,13 +129,20 @@ def part_close(ctx, shard):
                             if du is None:
                                 continue
                             at, at_si = unyt_quantity(2.0 * dmax_si / du_si, du), 2.0 * dmax_si
-                        elif at_name in ("other-unit-large", "other-unit-small"):
+                        elif at_name.startswith("other-unit"):
                             other = {"L": "mile", "T": "hr", "1": "percent"}[dim_d]
-                            f = 2.0 if at_name.endswith("large") else 1e-6
+                            f = 2.0 if "large" in at_name else 1e-6
                             at, at_si = unyt_quantity(f * dmax_si / SI[other], other), f * dmax_si
+                            # the same tolerance held in a unyt_array that is not a unyt_quantity
+                            if at_name.endswith("0darray"):
+                                at = unyt_array(np.array(float(at.d)), other)
+                            elif at_name.endswith("1array"):
+                                at = unyt_array(np.array([float(at.d)]), other)
                         else:
                             wrong = "s" if dim_d != "T" else "m"
                             at, at_si = unyt_quantity(1e9, wrong), None
+                            if at_name.endswith("0darray"):
+                                at = unyt_array(np.array(1e9), wrong)
                         if not commens or at_si is None:
                             want = "refuse"
                         else:
